@@ -195,6 +195,8 @@ class Model:
             from .normalise import strip_write_only_locals
             self.inlined += strip_write_only_locals(self.modules)
             self.inlined += canonical_loop_guards(self.modules)
+            from .normalise import canonical_index_probe
+            self.inlined += canonical_index_probe(self.modules)
             from .normalise import canonical_get_loops
             self.inlined += canonical_get_loops(self.modules)
             from .normalise import canonical_assert
